@@ -7,6 +7,8 @@ import (
 	"fmt"
 	"math/big"
 	"strings"
+
+	"github.com/meshplus/bitxhub-kit/types"
 	"time"
 
 	"github.com/meshplus/bitxhub-core/governance"
@@ -73,6 +75,7 @@ type scn struct {
 	proposals    []string
 	step         int
 	inSetup      bool
+	prevRefDump  [][2]string // state store of the reference replica after the previous block (only kept when there are other replicas)
 }
 
 func (s *scn) vio(prop, oracle, discr, f string, a ...any) {
@@ -409,7 +412,16 @@ func (s *scn) applyIBTP(st CStep) {
 	if len(s.pairs) == 0 {
 		return
 	}
-	p := s.pairs[((st.Pair%len(s.pairs))+len(s.pairs))%len(s.pairs)]
+	pairs := s.pairs
+	if s.cfg.SplitGroups {
+		pairs = nil
+		for _, q := range s.pairs {
+			if q.src.chain != s.chains[0] {
+				pairs = append(pairs, q)
+			}
+		}
+	}
+	p := pairs[((st.Pair%len(pairs))+len(pairs))%len(pairs)]
 	bxh := s.cfg.World.ChainID
 	from, to := p.src.full(bxh), p.dst.full(bxh)
 	if st.Ghost {
@@ -541,7 +553,33 @@ func (s *scn) flush() *blockResult {
 				}
 			}
 		}
-		br, err := r.execute(ev, 12*time.Second)
+		var br *blockResult
+		var err error
+		if r.pol.Reader && !s.inSetup && len(results) > 0 {
+			// keys and accounts the block changed, as seen on the reference replica
+			changed := sim.DiffDumps(s.prevRefDump, s.reps[0].stateDump())
+			br, err = r.executeWithReader(ev, 12*time.Second, func() {
+				for _, k := range changed {
+					switch {
+					case strings.HasPrefix(k, "account-"):
+						if a := types.NewAddressByStr(k[len("account-"):]); a != nil {
+							r.lg.GetBalance(a)
+							r.lg.GetNonce(a)
+						}
+					case strings.HasPrefix(k, "code-"):
+						if a := types.NewAddressByStr(k[len("code-"):]); a != nil {
+							r.lg.GetCode(a)
+						}
+					case len(k) > 20:
+						r.lg.GetState(types.NewAddress([]byte(k[:20])), []byte(k[20:]))
+					}
+				}
+				s.res.Add("fault_reads_between_flush_and_commit", int64(len(changed)))
+			})
+			s.res.Count("fault_slow_disk_with_reader")
+		} else {
+			br, err = r.execute(ev, 12*time.Second)
+		}
 		if err != nil {
 			if err == errWedged {
 				discr := ""
@@ -593,6 +631,9 @@ func (s *scn) flush() *blockResult {
 	}
 	// C01: every replica computed bit-identical results
 	s.compareReplicas(h, results)
+	if len(s.reps) > 1 {
+		s.prevRefDump = s.reps[0].stateDump()
+	}
 	// per-block oracles on the reference replica
 	s.bal.afterBlock(h, txs, metas, ref)
 	s.ibtp.afterBlock(h, txs, metas, ref)
